@@ -321,6 +321,9 @@ func (w *wrappedSink) processEntities(runner *Runner, entities []*server.Entity)
 			if !errors.Is(err, MaxItemsExceededError) {
 				w.lastError = err
 			}
+			// a rejected entity marks the run like a split batch does: a later batch that the sink
+			// accepts whole must not unset the error of this run
+			w.recursionDepth++
 			return nil
 		} else {
 			// if this was a larger batch, split and recusrse
